@@ -36,7 +36,9 @@ def EXHAUSTIVE(tier):
 
 def jobs(tier):
     js = [("one", i) for i in range(len(SHAPES))]
-    pairs = [(i, j) for i in range(len(SHAPES)) for j in range(len(SHAPES)) if (tier != "quick" or (i < 8 and j < 8))]
+    # quick: the first 8 shapes squared, plus every remaining shape (blocks that dispatch nothing, reset the id, ...) followed by
+    # a plain unnamed event and by a named one: state left behind by one block must not leak into the next event
+    pairs = [(i, j) for i in range(len(SHAPES)) for j in range(len(SHAPES)) if (tier != "quick" or (i < 8 and j < 8) or (i >= 8 and j in (0, 3)))]
     js += [("two", i, j) for i, j in pairs]
     if tier != "quick":
         js += [("three", i, j, k) for i in range(5) for j in range(5, 9) for k in (0, 2, 12)]
